@@ -381,7 +381,7 @@ def replay(cand):
         elif fn == "phase_coverage":
             nb = shape["n_bins"]
             edges = np.arange(nb + 1) / nb
-            inexact = phi[phi != 0.0]   # the earliest epoch has phase exactly 0 (t - t = 0): unambiguous
+            inexact = phi[tt != t0]     # only an epoch equal to the reference epoch has phase exactly 0 (t - t = 0); a whole number of periods later is a float tie
             if len(inexact) and np.min(np.abs(inexact[:, None] - edges[None, :])) < 1e-9:
                 return {"reproduced": False, "detail": "model sits on a bin edge (float-ambiguous)"}
             want = len({int(np.floor(p * nb)) for p in phi}) / nb
